@@ -34,7 +34,7 @@ MUTANTS = [
     ("b26", P + "parser/openapi.py", "                    for collection in collections:\n                        collection.parse_errors.append(endpoint)\n                    continue", "                    continue", ["C07"]),
     ("b27", P + "__init__.py", "        errors.extend(self.openapi.errors)\n", "", ["C07"]),
     ("b31", PP + "protocol.py", "        if no_optional or self.required:\n            return type_string", "        if no_optional:\n            return type_string", ["C11", "C10"]),
-    ("b32", PP + "protocol.py", '        elif not self.required:\n            default = "UNSET"', '        else:\n            default = "UNSET"', ["C10", "C11", "C13"]),
+    ("b32", PP + "protocol.py", '        elif not self.required:\n            default = "UNSET"', '        elif True:\n            default = "UNSET"', ["C10", "C11", "C13"]),
     ("b33", T + "model.py.jinja", "if {{ property.python_name }} is not UNSET:\n    field_dict[", "if True:\n    field_dict[", ["C02", "C10"]),
     ("b34", T + "model.py.jinja", '    "{{ property.name }}": {{ property.python_name }},', '    "{{ property.python_name }}": {{ property.python_name }},', ["C02"]),
     ("b35", T + "property_templates/union_property.py.jinja", "    if data is None:\n        return data\n", "", ["C02", "C10"]),
